@@ -464,9 +464,15 @@ class Gen:
 
     def grid(self, kind=None):
         r = self.rng
-        kind = kind or r.choice(["small", "small", "small", "tiny", "huge", "neg", "irregular", "empty"])
+        kind = kind or r.choice(["small", "small", "small", "tiny", "huge", "neg", "irregular", "empty", "ns", "ns", "ns_ms"])
         if kind == "empty":
             return []
+        if kind in ("ns", "ns_ms"):
+            # realistic sampling: dt = 2^-30 s (0.93 ns) or half / twice that, starting near 0 or near 1 ms
+            n = r.choice([2, 3, 4, 5, 6, 8])
+            dt = Fraction(1, 2 ** 30) * r.choice([Fraction(1, 2), 1, 1, 2])
+            start = (Fraction(r.randint(-8, 8), 2 ** 30) if kind == "ns" else Fraction(1, 2 ** 10) + Fraction(r.randint(-4, 4), 2 ** 30))
+            return [start + i * dt for i in range(n)]
         n = r.choice([1, 2, 2, 3, 4, 5, 6, 8]) if kind != "tiny" else r.choice([1, 2])
         dt = Fraction(r.choice([1, 1, 2, 4]), r.choice([1, 1, 2, 4]))
         start = {"small": Fraction(r.randint(-8, 8), r.choice([1, 2, 4])), "tiny": Fraction(r.randint(-3, 3)),
@@ -480,6 +486,43 @@ class Gen:
                 t += Fraction(r.choice([1, 2, 4, 8]), r.choice([1, 2, 4]))
             return ts
         return [start + i * dt for i in range(n)]
+
+    def perturbed(self, base):
+        """a grid of the same length that differs MINUTELY from an existing one: one ulp in one sample, a tiny
+        common shift, half a sample / one sample (below 1e-8 s on nanosecond grids), tiny non-uniformity.
+        Only exactly representable results are returned (else None)."""
+        r = self.rng
+        t = [frac(x) for x in base]
+        if not t:
+            return None
+        dt = (t[1] - t[0]) if len(t) >= 2 and t[1] != t[0] else Fraction(1, 2 ** 20)
+        kind = r.choice(["ulp", "tinyshift", "halfsample", "onesample", "nonuniform", "relshift"])
+        if kind == "ulp":
+            k = r.randrange(len(t))
+            if t[k] == 0:
+                return None
+            out = list(t)
+            out[k] = frac(np.nextafter(float(t[k]), float("inf") if r.random() < 0.5 else float("-inf")))
+        elif kind == "tinyshift":
+            out = [x + abs(dt) / 2 ** 20 for x in t]
+        elif kind == "halfsample":
+            out = [x + dt / 2 for x in t]
+        elif kind == "onesample":
+            out = [x + dt for x in t]
+        elif kind == "relshift":
+            # a shift far below 1e-5 * |t|
+            m = max(abs(x) for x in t)
+            if m == 0:
+                return None
+            e = 2 ** (m.numerator.bit_length() - m.denominator.bit_length() - 24)
+            out = [x + Fraction(e) for x in t]
+        else:
+            if len(t) < 3:
+                return None
+            out = [x + (abs(dt) / 2 ** 10 if 0 < i < len(t) - 1 and r.random() < 0.6 else 0) for i, x in enumerate(t)]
+        if out == t or any(Fraction(float(x)) != x for x in out):
+            return None
+        return out
 
     def values(self, n):
         r = self.rng
@@ -498,9 +541,29 @@ class Gen:
         t = [frac(x) for x in t]
         return len(t) >= 1 and all(pow2(b - a) and Fraction(1, 16) <= b - a <= 64 for a, b in zip(t, t[1:]))
 
-    def fun_ok(self, t):
-        return len(t) >= 2 and pow2(frac(t[1]) - frac(t[0])) and frac(t[1]) - frac(t[0]) >= Fraction(1, 8) and \
-            max(abs(frac(x)) for x in t) <= 1024 and all(span(x) <= 14 for x in t)
+    def fun_ok(self, t, strict=False):
+        """grid usable for a FunctionSignal with exact arithmetic: power-of-two step (1e-12 s .. 16 s), few
+        significant bits.  strict: also fine for quadratic functions (second-scale, <= 14 bits)"""
+        if len(t) < 2:
+            return False
+        dt = frac(t[1]) - frac(t[0])
+        if not (pow2(dt) and Fraction(1, 2 ** 40) <= dt <= 16 and max(abs(frac(x)) for x in t) <= 1024):
+            return False
+        if strict:
+            return dt >= Fraction(1, 8) and all(span(x) <= 14 for x in t)
+        return all(span(x) <= 24 for x in t)
+
+    def has_quad(self, o):
+        return any((self.fns.get(id(f)) or ("quad",))[0] == "quad" for f in o._functions)
+
+    @staticmethod
+    def near(a, b):
+        """same length, not equal, but closer than a loose closeness tolerance"""
+        try:
+            a, b = np.asarray(a, dtype=float), np.asarray(b, dtype=float)
+            return len(a) == len(b) and len(a) > 0 and not np.array_equal(a, b) and bool(np.allclose(a, b, rtol=1e-4, atol=1e-7))
+        except Exception:
+            return False
 
     def vspan(self, o):
         try:
@@ -522,6 +585,12 @@ class Gen:
         if len(E) < 2 or (len(E) < 7 and r.random() < 0.12):
             kind = None
             xs = self.grid(kind) if r.random() < 0.6 else self.values(r.choice([1, 2, 3, 4, 5, 6]))
+            if E and r.random() < 0.35:
+                # an almost-equal twin of a grid that is in use (or of any caller array)
+                used = [np.asarray(o.times, dtype=float) for o in O if isinstance(o.times, np.ndarray) and len(o.times)] or E
+                px = self.perturbed(r.choice(used))
+                if px is not None:
+                    xs = px
             return {"op": "newarr", "xs": [q_of(x) for x in xs]}
         if len(O) < 2 or (len(O) < 9 and r.random() < 0.22):
             ta = r.randrange(len(E))
@@ -531,6 +600,21 @@ class Gen:
                   "aslist": r.random() < 0.15,
                   "fn": [r.choice(["affine", "affine", "quad", "abs"]), q_of(r.randint(-3, 3)), q_of(Fraction(r.randint(-4, 4), r.choice([1, 2]))),
                          q_of(r.randint(-2, 2))]}
+            # value arrays keep few significant bits (sums / products of values must stay exact)
+            nice = [a for a in range(len(E)) if self.tspan(E[a]) <= 12]
+            if not nice:
+                return {"op": "newarr", "xs": [q_of(x) for x in self.values(r.choice([2, 3, 4]))]}
+            op["va"] = r.choice(nice)
+            if r.random() < 0.4 and O:
+                # a grid that is almost, but not exactly, the grid of an existing signal
+                near = [a for a in range(len(E)) if any(self.near(E[a], p.times) for p in O)]
+                if near:
+                    ta = op["ta"] = r.choice(near)
+            if c == 2 and self.fun_ok(E[op["ta"]]) and not self.fun_ok(E[op["ta"]], strict=True):
+                op["fn"][0] = r.choice(["affine", "abs"])
+                if frac(E[op["ta"]][1]) - frac(E[op["ta"]][0]) < Fraction(1, 64):
+                    op["fn"][2] = q_of(0)      # tiny times: no constant term, values keep few bits
+                    op["fn"][3] = q_of(0)
             if c == 2 and not self.fun_ok(E[ta]):
                 oks = [a for a in range(len(E)) if self.fun_ok(E[a])]
                 if not oks:
@@ -542,9 +626,9 @@ class Gen:
         i = r.randrange(len(O))
         o = O[i]
         kinds = ["copy", "add", "add", "add", "radd", "mul", "rmul", "imul", "div", "idiv", "with_times", "with_times",
-                 "shift", "settype", "setbuf", "pokearr", "poketimes", "pokevals", "addmatch", "addmatch"]
+                 "shift", "settype", "setbuf", "pokearr", "poketimes", "pokevals", "addmatch", "addmatch", "addnear", "addnear"]
         k = r.choice(kinds)
-        if len(O) >= 10 and k in ("copy", "add", "addmatch", "mul", "rmul", "div", "with_times"):
+        if len(O) >= 10 and k in ("copy", "add", "addmatch", "addnear", "mul", "rmul", "div", "with_times"):
             k = r.choice(["imul", "idiv", "shift", "settype", "pokearr", "poketimes", "pokevals", "radd", "setbuf"])
         qform = r.choice(["float", "int", "np"])
         if k == "copy":
@@ -555,6 +639,13 @@ class Gen:
             # prefer a partner on the same grid so that additions are mostly accepted
             same = [j for j, p in enumerate(O) if len(p.times) == len(o.times) and np.array_equal(p.times, o.times)]
             return {"op": "add", "i": i, "j": r.choice(same)}
+        if k == "addnear":
+            # a partner whose grid differs minutely: must be refused, in either operand order
+            nearj = [j for j, p in enumerate(O) if self.near(p.times, o.times)]
+            if not nearj:
+                return None
+            j = r.choice(nearj)
+            return {"op": "add", "i": i, "j": j} if r.random() < 0.5 else {"op": "add", "i": j, "j": i}
         if k == "radd":
             return {"op": "radd", "i": i, "k": r.choice([0, 0, 0, 1, -2])}
         if k in ("mul", "rmul", "imul"):
@@ -576,8 +667,16 @@ class Gen:
                     if len(o.times) else list(range(len(E)))
             elif c == 2:
                 t = o.times
-                cands = [a for a in range(len(E)) if self.fun_ok(E[a]) and
-                         abs(frac(E[a][0]) - frac(t[0])) <= 40 and abs(frac(E[a][-1]) - frac(t[-1])) <= 40]
+                dto = frac(t[1]) - frac(t[0])
+                strict = self.has_quad(o)
+                cands = []
+                for a in range(len(E)):
+                    if not self.fun_ok(E[a], strict=strict):
+                        continue
+                    dtn = frac(E[a][1]) - frac(E[a][0])
+                    if dto > 0 and Fraction(1, 8) <= dtn / dto <= 8 and abs(frac(E[a][0]) - frac(t[0])) <= 40 * dtn and \
+                            abs(frac(E[a][-1]) - frac(t[-1])) <= 40 * dtn:
+                        cands.append(a)
                 if r.random() < 0.1:
                     cands += [a for a in range(len(E)) if len(E[a]) == 0]
             else:
@@ -591,14 +690,19 @@ class Gen:
                 q = Fraction(r.randint(-4, 4))
             if self.is_fun(o) and (max(abs(frac(x)) for x in o.times) > 900 or max(span(x) for x in o._t0s) > 12):
                 q = Fraction(0)
+            if self.is_fun(o) and len(o.times) >= 2 and abs(frac(o.times[1]) - frac(o.times[0])) < Fraction(1, 64):
+                q = Fraction(r.randint(-12, 12)) * abs(frac(o.times[1]) - frac(o.times[0]))   # shift by whole samples
+            if any(Fraction(float(x) + float(q)) != frac(x) + q for x in o.times):
+                q = Fraction(0)          # e.g. a grid with a one-ulp perturbation: the shifted times would round
             return {"op": "shift", "i": i, "q": q_of(q), "qform": qform}
         if k == "settype":
             return {"op": "settype", "i": i, "vt": r.randrange(4), "vtform": r.choice(["enum", "int", "str", "none"])}
         if k == "setbuf":
             if not self.is_fun(o):
                 return None
-            return {"op": "setbuf", "i": i, "lead": q_of(Fraction(r.randint(0, 12), r.choice([1, 2, 4]))),
-                    "trail": q_of(Fraction(r.randint(0, 12), r.choice([1, 2, 4])))}
+            dto = abs(frac(o.times[1]) - frac(o.times[0])) if len(o.times) >= 2 else Fraction(1)
+            return {"op": "setbuf", "i": i, "lead": q_of(Fraction(r.randint(0, 12), r.choice([1, 2, 4])) * dto),
+                    "trail": q_of(Fraction(r.randint(0, 12), r.choice([1, 2, 4])) * dto)}
         if k == "pokearr":
             a = r.randrange(len(E))
             n = len(E[a])
@@ -874,6 +978,45 @@ def exhaustive_pairs():
     return hs
 
 
+def exhaustive_near():
+    """every operand-class pair on two grids of equal length that differ minutely (nanosecond grids shifted by
+    half a sample / one sample / 2^-50 s, near 1 ms; for sampled signals also one ulp in one sample and tiny
+    non-uniformity): the sum must be refused in both operand orders, and accepted on the exactly equal grid"""
+    hs = []
+    ns = Fraction(1, 2 ** 30)
+    A = [i * ns for i in range(5)]
+    ms = [Fraction(1, 2 ** 10) + i * ns for i in range(5)]
+    sec = [Fraction(i, 2) for i in range(5)]
+    ulp = lambda x: Fraction(float(np.nextafter(float(x), float("inf"))))
+    variants = [("half-sample", A, [x + ns / 2 for x in A], True), ("one-sample", A, [x + ns for x in A], True),
+                ("2^-50", A, [x + Fraction(1, 2 ** 50) for x in A], True),
+                ("1ms-half-sample", ms, [x + ns / 2 for x in ms], True),
+                ("1ms-2^-40", ms, [x + Fraction(1, 2 ** 40) for x in ms], True),
+                ("ulp-one-sample", A, A[:3] + [ulp(A[3])] + A[4:], False),
+                ("ulp-seconds", sec, sec[:2] + [ulp(sec[2])] + sec[3:], False),
+                ("seconds-2^-30", sec, [x + Fraction(1, 2 ** 30) for x in sec], False),
+                ("non-uniform", A, [A[0], A[1] + ns / 1024, A[2], A[3] - ns / 512, A[4]], False)]
+    for name, g1, g2, fun_too in variants:
+        for c1 in range(3):
+            for c2 in range(3):
+                if (c1 == 2 or c2 == 2) and not fun_too:
+                    # a FunctionSignal needs a regular grid with few bits; it sits on the unperturbed grid
+                    if c2 == 2:
+                        continue
+                fn = ["affine", [2, 1], [0, 1], [0, 1]]
+                hs.append([{"op": "newarr", "xs": [q_of(x) for x in g1]},
+                           {"op": "newarr", "xs": [q_of(x) for x in g2]},
+                           {"op": "newarr", "xs": [[3, 1], [-1, 2], [4, 1], [1, 1], [2, 1]]},
+                           {"op": "mk", "cls": c1, "sub": False, "ta": 0, "va": 2, "vt": 1, "fn": fn, "vtform": "enum"},
+                           {"op": "mk", "cls": c2, "sub": c1 == c2, "ta": 1, "va": 2, "vt": 0, "fn": fn, "vtform": "enum"},
+                           {"op": "mk", "cls": c2 if c2 != 2 or fun_too else 0, "sub": False, "ta": 0, "va": 2, "vt": 1, "fn": fn, "vtform": "enum"},
+                           {"op": "add", "i": 0, "j": 1},
+                           {"op": "add", "i": 1, "j": 0},
+                           {"op": "add", "i": 0, "j": 2},
+                           {"op": "add", "i": 2, "j": 0}])
+    return hs
+
+
 def load_corpus():
     d = os.path.join(common.ROOT, "corpus", "C04")
     out = []
@@ -892,7 +1035,9 @@ def run(ctx):
                 "executing on real pyrex objects from the seeded PRNG; exact dyadic data; compared after every op "
                 "with the vm_compute trace of Model/SignalModel.v (result kind, every object, every caller array, "
                 "np.shares_memory pattern); exhaustive operand class x subclass x value type pairs; malformed "
-                "stream: out-of-range writes, empty grids, k+s with k<>0; non-trivial = distinct op-kind sequences")
+                "stream: out-of-range writes, empty grids, k+s with k<>0; realistic nanosecond grids (dt 2^-30 s, near 0 and near "
+                "1 ms) and minutely differing twins of grids in use (one ulp in one sample, 2^-20 dt shift, half / one sample, "
+                "tiny non-uniformity) with additions across them in both orders, exhaustively for every operand-class pair; non-trivial = distinct op-kind sequences")
     ctx.trusted += ["Coq 8.16.1 kernel; vm_compute for the model traces",
                     "harness/props/c04.py: executor, observation (np.shares_memory, id() of component lists), Fraction oracle",
                     "NumPy float64 arithmetic is exact on the generated dyadic data (magnitudes bounded by the generator)"]
@@ -916,6 +1061,15 @@ def run(ctx):
     for ops in ex:
         o, st, comp = execute(None, fixed_ops=ops)
         histories.append(("pairs", o, st, comp))
+    near = exhaustive_near()
+    n_refused = 0
+    for ops in near:
+        o, st, comp = execute(None, fixed_ops=ops)
+        histories.append(("near-grids", o, st, comp))
+        n_refused += sum(1 for s_ in st[6:8] if s_[0] == (3, 0))
+    ctx.oblige("corr:minutely-different-grids-refused", n_refused == 2 * len(near),
+               "%d of %d sums over minutely different grids were refused" % (n_refused, 2 * len(near)))
+    ctx.extra["near_equal_grid_pairs"] = {"histories": len(near), "refused_sums": n_refused, "expected_refused": 2 * len(near)}
     n_rand = ctx.n(300, 5000)
     for n in range(n_rand):
         o, st, comp = execute(None, rng=rng, max_ops=rng.choice([8, 15, 30, 30]), malformed=(n % 6 == 5))
@@ -940,7 +1094,7 @@ def run(ctx):
         ctx.case(key=tuple((o_["op"], o_.get("cls"), o_.get("vt")) for o_ in ops), nontrivial=len(ops) > 3,
                  sample={"tag": tag, "ops": ops[:12]} if n % 97 == 0 else None)
         d = compact_diff(steps, traces[n]) if traces is not None else None
-        if (complaints or d is not None) and len(ctx.failures) >= 6:
+        if (complaints or d is not None) and len(ctx.failures) >= 4:
             # enough witnesses recorded: only count the rest (keeps a failing run within the time budget)
             disagreements += 1 if d is not None else 0
             continue
@@ -972,7 +1126,7 @@ def run(ctx):
                "%d of %d histories differ" % (disagreements, len(histories)))
     ctx.extra["correspondence"] = {"histories": len(histories), "disagreements": disagreements,
                                    "op_kinds": kinds, "error_kinds": errs, "history_lengths": sizes,
-                                   "exhaustive_pairs": len(ex), "tolerance": "exact (dyadic rationals)"}
+                                   "exhaustive_pairs": len(ex), "near_equal_grid_histories": len(near), "tolerance": "exact (dyadic rationals)"}
     ctx.extra["search"] = {"ran": True, "oracle": "property text with Fractions: one value per sample, no shared arrays/"
                            "lists between result and operands/arguments, pointwise sum, type table, scaling, exact "
                            "np.interp rule, exact function re-evaluation", "evaluations": sum(len(h[1]) for h in histories)}
